@@ -1,6 +1,7 @@
 import TextxVerif.Proofs.ProcWalk
 import TextxVerif.Proofs.ProcOrder
 import TextxVerif.Proofs.ProcLoad
+import TextxVerif.Proofs.ProcModels
 /-!
 # C13 — object processors run once each, bottom-up, on a fully linked model
 
@@ -498,6 +499,61 @@ theorem C13_root_calls (M : MM) (id cls : Nat) :
     calls M ⟨id, cls, cls⟩ = if M.hasProc cls then [(cls, id)] else [] := by
   simp [calls]
 
+/-! ## V13: the calls on a model of a load depend on its own metamodel only
+
+Seeded change C13-5 asked the metamodel of the *main* model whether any processor is
+registered and skipped the walk of every model of the load when it has none.  In the
+code (`for m in models: call_obj_processors(m._tx_metamodel, m)`) and in `finishMM`
+nothing about a model's walk depends on another model's metamodel. -/
+
+/-- **The calls on model `k` of a load** (any number of models, each with its own
+metamodel): exactly the calls of the walk of that model with its own metamodel, in
+that order — the registrations of the metamodels of the other models (the main
+model's among them; also: none at all) do not occur in the statement. -/
+theorem C13_model_calls_own (S : Script) (isUser : Nat → Bool) (resolves : List Nat)
+    (models : List (MM × Val)) (k : Nat) (M : MM) (v : Val) (hk : models[k]? = some (M, v)) :
+    callsOfModel k (finishMM S isUser resolves models) = (walk M S v v.cls).log.map Entry.key := by
+  rw [callsOfModel_finishMM, hk]
+
+/-- … and no call is attributed to a model that is not part of the load -/
+theorem C13_model_calls_none (S : Script) (isUser : Nat → Bool) (resolves : List Nat)
+    (models : List (MM × Val)) (k : Nat) (hk : models[k]? = none) :
+    callsOfModel k (finishMM S isUser resolves models) = [] := by
+  rw [callsOfModel_finishMM, hk]
+
+/-- **Which processor calls happen in a load of several metamodels.** Processor `r` is
+called on object `i` of model `k` iff the metamodel *of that model* has `r` registered
+and `i` is an object of the model whose own rule is `r` or which is stored in an
+attribute declared `r` — whatever the other metamodels of the load register. -/
+theorem C13_model_called_iff (S : Script) (isUser : Nat → Bool) (resolves : List Nat)
+    (models : List (MM × Val)) (k : Nat) (M : MM) (v : Val) (hk : models[k]? = some (M, v))
+    (h : wf M v v.cls = true) (r i : Nat) :
+    Ev.proc k r i ∈ finishMM S isUser resolves models ↔
+      M.hasProc r = true ∧ ∃ o ∈ occ v v.cls, o.id = i ∧ (r = o.cls ∨ r = o.gm) := by
+  rw [← mem_callsOfModel, C13_model_calls_own S isUser resolves models k M v hk]
+  exact C13_called_iff M S v v.cls h r i
+
+/-- **Independence.** Replacing the metamodels of the other models of a load (for
+instance the main model's by one without any registration) does not change the calls on
+model `k`. -/
+theorem C13_model_calls_indep (S : Script) (isUser : Nat → Bool) (resolves resolves' : List Nat)
+    (models models' : List (MM × Val)) (k : Nat) (hk : models[k]? = models'[k]?) :
+    callsOfModel k (finishMM S isUser resolves models) =
+      callsOfModel k (finishMM S isUser resolves' models') := by
+  rw [callsOfModel_finishMM, callsOfModel_finishMM, hk]
+
+/-- the same for a load through the resolution loop (`loadEvents`) -/
+theorem C13_load_model_calls_own (files : List LinkLoc.FileSpec) (ans : Nat → Nat → LinkLoc.Answer) (fuel : Nat)
+    (S : Script) (isUser : Nat → Bool) (models : List (MM × Val)) (evs : List Ev)
+    (hl : loadEvents files ans fuel S isUser models = some evs)
+    (k : Nat) (M : MM) (v : Val) (hk : models[k]? = some (M, v)) :
+    callsOfModel k evs = (walk M S v v.cls).log.map Entry.key := by
+  unfold loadEvents at hl
+  split at hl
+  · cases hl
+    exact C13_model_calls_own S isUser _ models k M v hk
+  · cases hl
+
 /-! ## non-vacuity
 
 classes: 0 `Model` (common), 1 `A` (common), 2 `B` (common), 3 `Base` (abstract: A | B | INT), 4 `INT` (match).
@@ -536,6 +592,16 @@ example : finishMM exS (fun c => c = 1) [0] [(exM, exV), (exM', exV)] =
     [.resolve 0, .init 0 11, .init 0 14, .init 1 11, .init 1 14,
      .proc 0 3 12, .proc 0 1 11, .proc 0 3 11, .proc 0 3 13, .proc 0 1 14, .proc 0 0 10,
      .proc 1 2 12, .proc 1 2 13] := by decide
+
+/-- V13: a main model whose metamodel registers nothing imports a model of `exM`: the calls on
+the imported model are those of `exM` (seeded change C13-5 made them disappear) -/
+def exNone : MM where
+  kind := exM.kind
+  hasProc _ := false
+
+example : callsOfModel 1 (finishMM exS (fun c => c = 1) [0] [(exNone, exV), (exM, exV)]) =
+    [(3, 12), (1, 11), (3, 11), (3, 13), (1, 14), (0, 10)] := by decide
+example : callsOfModel 0 (finishMM exS (fun c => c = 1) [0] [(exNone, exV), (exM, exV)]) = [] := by decide
 
 /-! D13 non-vacuity: containment, entitled calls and the ordering hypotheses on `exV` -/
 example : inside exV 10 12 ∧ inside exV 11 12 := by
